@@ -1,6 +1,7 @@
 """C12: `FcpV2.reflection()` + serde with the built-in reflection schema, against the Lean
 `Reflection` model (`reflect`, `reflTy`) and the canonical codec."""
 import json
+import os
 import random
 
 from . import gen
@@ -150,6 +151,33 @@ def w_reflect(case):
             out["decoded"] = model_record(d)
     except Exception as e:
         out["serde_raised"] = {"exc": type(e).__name__, "msg": str(e)[:150]}
+    if case.get("via_cli") and "bytes" in out:
+        # the `fcp encode <reflection.fcp> <schema> <output>` command must write exactly those bytes (for the record of
+        # the schema read from that file: positions carry the file name)
+        import shutil
+        import tempfile
+        from click.testing import CliRunner
+        from fcp.__main__ import encode as encode_cmd
+        from fcp.parser import get_fcp
+        from .common import REPO
+        d = tempfile.mkdtemp(prefix="fcprefl_")
+        try:
+            sp = os.path.join(d, "schema.fcp")
+            with open(sp, "w", newline="") as f:
+                f.write(case["text"])
+            rp = str(REPO / "src" / "fcp" / "reflection" / "reflection.fcp")
+            op = os.path.join(d, "out.bin")
+            res = CliRunner().invoke(encode_cmd, [rp, sp, op])
+            if res.exception is not None and not isinstance(res.exception, SystemExit):
+                out["cli"] = {"exc": type(res.exception).__name__, "msg": str(res.exception)[:150]}
+            elif not os.path.exists(op):
+                out["cli"] = {"missing": (res.output or "")[-200:]}
+            else:
+                want = serde.encode(R, "Fcp", get_fcp(sp, Logger({})).unwrap().reflection())
+                got = open(op, "rb").read()
+                out["cli"] = {"same": bytes(want) == got, "len": len(got)}
+        finally:
+            shutil.rmtree(d, ignore_errors=True)
     return out
 
 
@@ -245,7 +273,7 @@ def run(prop, tier, replay=None):
         text = render(rng, desc_toks(rng, d), rng.choice(["canon", "wild"]))
         if not text.isascii():
             text = text.encode("ascii", "replace").decode()  # the wire format carries 7-bit strings
-        cases.append({"text": text})
+        cases.append({"text": text, "via_cli": rng.random() < 0.25})
     cases.append({"text": 'version: "3"\nstruct A {\n    x @ -1: u8,\n}\n'})  # recorded finding: negative field id
     ires = run_cases("harness.reflection", "w_reflect", cases, timeout_s=60)
     lidx = [k for k, r in enumerate(ires) if "ok" in r and "rschema" in r["ok"]]
@@ -292,6 +320,13 @@ def run(prop, tier, replay=None):
                                    what="the reflection record of an accepted schema does not survive serialization"))
             continue
         rep.hist("outcome", "ok")
+        if "cli" in o:
+            rep.hist("cli_encode", "same bytes" if o["cli"].get("same") else "differs")
+            if not o["cli"].get("same"):
+                rep.cov["disagreements_checked"] += 1
+                rep.violation(dict(base, kind="cli-encode", observed=o["cli"],
+                                   what="`fcp encode` does not write the serialized reflection record of the schema"))
+                continue
         if "serde_raised" in o or o.get("roundtrip") is not True:
             rep.cov["disagreements_checked"] += 1
             rep.violation(dict(base, kind="lossy", observed=o.get("serde_raised") or "decode != record",
